@@ -26,6 +26,8 @@ SPEC = {
     'declined': ['dead-interval arithmetic and compaction thresholds', 'multi-operand set algebra', 'ordering of results'],
     'trusted_base': ['itertools.chain / islice semantics'], 'assumptions': [], 'exhaustive': True,
 }
+SPEC['explanation'] += ' T15.negpath: on every path of pop(index) that tombstones a slot the position was tested for being negative first (helpers inlined). T25.raw: raw enumerations of item_list filter the tombstone marker or follow a rebuild of the list.'
+SPEC['decided'] += ['negative position tested on every tombstoning path', 'raw slot enumerations filter tombstones']
 MANIFEST = {
     'technique': 'pairing / must-pass-through analysis on CFG paths, two-point index-space qualifier check, nesting-depth check of iterator expressions, alias-guard check',
     'text': ('Decides structural necessary conditions of C11: tombstones, index map and dead-index table are updated together and '
